@@ -163,8 +163,8 @@ Fixpoint boundaries (now drift : Z) (tv : hdr -> hdr -> tvres) (prev : list hdr)
 
 Definition is_nil {A} (l : list A) : bool := match l with [] => true | _ => false end.
 
-(** session.verifyChunkBoundaries (an empty chunk would panic at chunks[i][0], in the
-    sort or in the loop; chunks are proved non-empty) *)
+(** session.verifyChunkBoundaries, before its deferred recover is applied ([BPanic]: an empty
+    chunk would panic at chunks[i][0], in the sort or in the loop; [finish] turns it into an error) *)
 Definition verify_chunk_boundaries (now drift : Z) (tv : hdr -> hdr -> tvres) (from : hdr)
            (chunks : list (list hdr)) : bres :=
   if h_nil from then BOk
@@ -183,13 +183,13 @@ Inductive result :=
 | RFuel.          (* model artefact: loop fuel exhausted (proved unreachable) *)
 
 (** what the collector returns once it has [amount] headers: the headers sorted by height,
-    or the error of the chunk-boundary verification *)
+    or the error of the chunk-boundary verification; a panic inside verifyChunkBoundaries is
+    recovered there into an error as well ([ENotChain] stands for both) *)
 Definition finish (now drift : Z) (tv : hdr -> hdr -> tvres) (from : hdr)
            (coll : list hdr) (chunks : list (list hdr)) : result :=
   match verify_chunk_boundaries now drift tv from chunks with
   | BOk => ROk (sort_h coll)
-  | BErr => RErr ENotChain
-  | BPanic => RPanic
+  | BErr | BPanic => RErr ENotChain
   end.
 
 (** state of the session: reqCh, peerQueue, running doRequest goroutines, collected headers
@@ -379,8 +379,8 @@ Fixpoint honest_evs_b (drift : Z) (tv : hdr -> hdr -> tvres) (maxcap : N) (from 
 (** ** a type-level Verify that may panic
 
     [session.processResponses] (UnmarshalBinary, Validate, VerifyRange) runs under a
-    [recover]: a panic there makes the answer a failed one. [verifyChunkBoundaries] calls
-    [header.Verify] outside any recover. The functions below are the faithful versions for a
+    [recover]: a panic there makes the answer a failed one. [verifyChunkBoundaries] has its own
+    deferred recover: a panic there makes the whole call fail with an error. The functions below are the faithful versions for a
     header type whose own Verify may panic ([TVPanics]); Proofs/SessionP.v relates them to the
     functions above instantiated with [recovered tvp]. *)
 
@@ -443,7 +443,7 @@ Definition do_request_p (now drift : Z) (tvp : hdr -> hdr -> tvres_p) (from : hd
     end
   end.
 
-(** verifyChunkBoundaries: no recover around header.Verify *)
+(** verifyChunkBoundaries before its recover: [BPanic] = header.Verify (or an index) panicked *)
 Fixpoint boundaries_p (now drift : Z) (tvp : hdr -> hdr -> tvres_p) (prev : list hdr)
          (cs : list (list hdr)) : bres :=
   match cs with
@@ -453,7 +453,7 @@ Fixpoint boundaries_p (now drift : Z) (tvp : hdr -> hdr -> tvres_p) (prev : list
     | [], _ | _, [] => BPanic
     | _ :: _, u :: _ =>
       match Verify_p now drift tvp (last prev hdr_nil) u with
-      | None => BPanic                 (* the panic reaches the caller of GetRangeByHeight *)
+      | None => BPanic                 (* recovered by the deferred function: see finish_p *)
       | Some (Some _) => BErr
       | Some None => boundaries_p now drift tvp c r
       end
@@ -473,8 +473,7 @@ Definition finish_p (now drift : Z) (tvp : hdr -> hdr -> tvres_p) (from : hdr)
            (coll : list hdr) (chunks : list (list hdr)) : result :=
   match verify_chunk_boundaries_p now drift tvp from chunks with
   | BOk => ROk (sort_h coll)
-  | BErr => RErr ENotChain
-  | BPanic => RPanic
+  | BErr | BPanic => RErr ENotChain    (* the error of Verify, or the recovered panic *)
   end.
 
 (** [step] with the panicking verifier (same text, [do_request_p] and [finish_p]) *)
